@@ -322,3 +322,11 @@ func isStoreTo(key string) func(core.Event) bool {
 func isCall(name string) func(core.Event) bool {
 	return func(e core.Event) bool { return e.Callee == name }
 }
+
+func namedOfType(t types.Type) *types.Named {
+	if pt, ok := t.(*types.Pointer); ok {
+		t = pt.Elem()
+	}
+	n, _ := t.(*types.Named)
+	return n
+}
